@@ -328,15 +328,3 @@ def check_who_may_call(ctx, config='rel-all', rule='R6'):
         ctx.floor(rule + '.' + kind, len(fns), 1, 'functions calling the global %s' % kind)
 
 
-def thorough(ctx):
-    for cfg in ('rel-default', 'rel-coll'):
-        sub = type(ctx)(ctx.pid, ctx.tier, ctx.seed)
-        sub.repo = ctx.repo
-        run(sub, cfg)
-        for v in sub.violations:
-            v = dict(v)
-            ctx.violations.append(v) if not any(x['key'] == v['key'] for x in ctx.violations) else None
-        for k, n in sub.counts.items():
-            ctx.counts[k] = ctx.counts.get(k, 0) + n
-        ctx.instances.extend(sub.instances[:10])
-        ctx.configs_used.extend(sub.configs_used)
